@@ -159,13 +159,33 @@ pub const POOLS: &[(&str, &str)] = &[
     ("negative-fraction", "a = -5\nb = 0.5\nc = true\nl = []\nf = max"),
     ("quotes-backslashes", "a = \"it's\"\nb = 'say \"hi\"'\nc = \"a\\b\"\nl = [\"x\", 'q\"', \"both ' and \" + '\"']\nf = y => y"),
     ("non-finite", "a = inf\nb = -inf\nc = 0/0\nl = [[1], {k: 1}]\nf = (w => (y => y + w))(3)"),
-    ("records", "a = {k: 1, \"a b\": 2, \"\": 3, \"0\": 4}\nb = [1, [2, {z: \"s\"}]]\nc = null\nl = {x: [1], y: {z: 2}}\nf = p => q => [p, q]"),
+    ("records", "a = {k: 1, \"a b\": 2, \"\": 3, \"0\": 4, \"caf\u{e9}\": 5, \"_\u{1f600}\": 6, \"x\u{301}\": 7, \"k\u{663}\": 8, \"\u{e9}\": 9}\nb = [1, [2, {z: \"s\"}]]\nc = null\nl = {x: [1], y: {z: 2}}\nf = p => q => [p, q]"),
 ];
 pub const RICH_ARGS: &[&str] = &["0", "2", "\"s\"", "[1, 2]", "null"];
 
 pub fn replay(case: &J, cli: Option<&str>, idx: usize, thorough: bool) -> J {
     let mut mism = vec![];
     let mut evals = 0;
+    if idx == 0 {
+        // once per run: every built-in, called by its name in a body and captured under another name, survives the trip
+        let tuples: Vec<Vec<String>> = [vec!["1", "1"], vec!["1", "2"], vec!["2", "1"], vec!["[3, 1, 2]"], vec!["\"ab\""], vec!["[1, 2]", "x => x"], vec!["[2, 1]", "(a, b) => a - b", "0"],
+                                        vec!["1"], vec!["4", "2", "3"], vec!["\"a\"", "\"a\""], vec!["[1]", "[1]"], vec!["{a: 1}"], vec!["2.5", "1"]]
+            .iter().map(|t| t.iter().map(|x| x.to_string()).collect()).collect();
+        // the names as the documentation lists them (not taken from the implementation's own name table)
+        const NAMES: &[&str] = &["sqrt", "sin", "cos", "tan", "asin", "acos", "atan", "log", "log10", "exp", "abs", "floor", "ceil", "round", "trunc", "min", "max", "avg", "sum", "prod", "median",
+            "percentile", "range", "any", "all", "len", "head", "tail", "slice", "concat", "dot", "unique", "sort", "sort_by", "reverse", "map", "reduce", "filter", "every", "some", "split", "join",
+            "replace", "trim", "uppercase", "lowercase", "includes", "format", "typeof", "arity", "keys", "values", "entries", "group_by", "count_by", "flatten", "zip", "chunk", "to_string", "to_number",
+            "to_bool", "convert", "ugt", "ult", "ugte", "ulte"];
+        for n in NAMES {
+            for def in [format!("fn = (...xs) => {n}(...xs)"), format!("gn = {n}\nfn = (...xs) => gn(...xs)"), format!("gn = {{k: [{n}]}}\nfn = (...xs) => gn.k[0](...xs)")] {
+                let s = Session::new();
+                for line in def.lines() { let _ = s.eval(line); }
+                let p = round_trip(&s, "fn", &tuples, None, None);
+                evals += 3 * tuples.len() as u64;
+                for pr in p.problems { mism.push(json!({"class": "built-in by name", "src": def.replace('\n', " ; "), "problem": pr})); }
+            }
+        }
+    }
     if case.get("def").is_some() {
         // core-language definition with the model's expected result
         let s = Session::new();
